@@ -21,7 +21,8 @@ RULE = (
     "logical types in 30%) with conforming data, hints at 30% of unions ((name,value) tuples and "
     "'-type'), plus targeted families: 2-4 record branches with overlapping nullable fields and "
     "data sharing random subsets of field names (ties), float/double in either order with int and "
-    "float data, hints naming no branch. Oracle (i): the union indices in the written bytes "
+    "float data, hints naming no branch, an unhinted outer union of records whose inner hint "
+    "names a branch only a later candidate has. Oracle (i): the union indices in the written bytes "
     "(independent decoder) equal the rule of the statement applied with an independent conformance "
     "predicate (hint => that branch, error if none; else first conforming non-record branch with "
     "float deferred to a later double; else the conforming record sharing most field names, first "
@@ -42,7 +43,7 @@ TIME_LIMIT = {"quick": 40, "thorough": 560}
 SHARDS = 16
 REACH = {
     "quick": {"branch_rule_checked": 8000, "hinted_writes": 300, "wrong_name_hints": 100, "wide_union_cases": 25, "combined_option_reads": 2000, "block_reader_tag_reads": 500,
-              "record_ties": 100, "float_double_deferral": 50, "closure_roundtrips": 4000,
+              "record_ties": 100, "float_double_deferral": 50, "inner_hint_decides_outer": 300, "closure_roundtrips": 4000,
               "closure_named_record": 100, "closure_named_enum": 100, "closure_named_fixed": 100,
               "determinism_cross_process": 500, "tags_checked": 1000},
     "thorough": {"branch_rule_checked": 200000},
@@ -125,6 +126,46 @@ def similar_names_case(rng):
     if rng.random() < 0.5:
         return {"type": "record", "name": "Top", "namespace": "", "fields": [{"name": "u", "type": u}]}, {"u": d}, feats
     return u, d, feats
+
+
+def inner_hint_case(rng):
+    """An unhinted outer union of records whose fields are unions themselves: a hint inside the
+    datum names a branch that only some of the outer candidates have, so it is the hint that
+    decides which outer record the datum conforms to (the bare value would fit them all)."""
+    def rec(name, *fields):
+        return {"type": "record", "name": name, "fields": list(fields)}
+
+    if rng.random() < 0.5:
+        leaves = [rec(n, {"name": "v", "type": "int"}) for n in ("X", "Y", "Z", "W")]
+        value = {"v": rng.randint(-3, 3)}
+        names = ["X", "Y", "Z", "W"]
+    else:
+        leaves = ["int", "long", "string", "double"]
+        names = list(leaves)
+        value = None
+    k = rng.randint(2, 3)
+    outers, defined = [], set()
+    for i in range(k):
+        picks = rng.sample(range(4), rng.randint(1, 3))
+        inner = []
+        for j in picks:
+            if isinstance(leaves[j], dict) and names[j] in defined:
+                inner.append(names[j])
+            else:
+                inner.append(leaves[j])
+                defined.add(names[j])
+        outers.append((rec("Outer%d" % i, {"name": "f", "type": inner}), [names[j] for j in picks]))
+    # a name carried by a later candidate only, if there is one
+    later = [n for i, (_o, ns) in enumerate(outers) for n in ns if i > 0 and n not in outers[0][1]]
+    target = rng.choice(later) if later and rng.random() < 0.8 else rng.choice(names)
+    if value is None:
+        value = {"int": 5, "long": 5, "string": "s", "double": 5}[target] if rng.random() < 0.7 else 5
+    u = [o for o, _ns in outers] + rng.choice([[], ["null"]])
+    d = {"f": (target, value)}
+    feats = {"inner_hint_decides_outer", "hint_tuple"}
+    if rng.random() < 0.5:
+        return {"type": "record", "name": "Top", "fields": [{"name": "u", "type": u}]}, {"u": d}, feats
+    return {"type": "array", "items": u}, [d], feats
 
 
 def float_case(rng):
@@ -547,7 +588,12 @@ def run_shard(spec):
             js, d, feats = similar_names_case(rng)
             node, env = RS.build(js)
             case = {"schema": js, "node": node, "datum": d, "features": set(feats)}
-        elif x < 0.22:
+        elif x < 0.19:
+            js, d, feats = inner_hint_case(rng)
+            node, env = RS.build(js)
+            case = {"schema": js, "node": node, "datum": d, "features": set(feats)}
+            sh.count("inner_hint_decides_outer")
+        elif x < 0.25:
             js, d, feats = float_case(rng)
             node, env = RS.build(js)
             case = {"schema": js, "node": node, "datum": d, "features": set(feats)}
